@@ -121,7 +121,7 @@ def _removal_focus(R: Draw, g, rs, doc: dict):  # noqa: ANN001, ANN202
     a = R.int(start + 1, start + size - 2)
     b = R.int(a, start + size - 1) if R.bool(0.3) else start + size - 1
     how = R.weighted([("type", 5), ("all", 3), ("mark", 2)])
-    return doc2, {"op": "remove_mark", "from": a if R.bool(0.5) else start + 1, "to": b, "mark": g.mark(R, m) if how == "mark" else None, "type": m if how == "type" else None}
+    return doc2, {"op": "remove_mark", "from": a if R.bool(0.5) else start + 1, "to": b, "mark": g.mark(R, m) if how == "mark" else None, "type": m if how == "type" else None, "focus_type": m}
 
 
 def _exclusion_focus(R: Draw, g, rs, doc: dict):  # noqa: ANN001, ANN202
